@@ -35,7 +35,7 @@ ASSUMPTIONS = [
 TOP = scen.TOP
 CANON_PRIORS = ['absent', 'flat', 'flat_otherhashes', 'flat_rich', 'nested_None_None', 'nested_gz_xz',
                 'nested_bz2_None', 'nested_ancestor', 'dup_sub', 'dup_disjoint', 'unreg_valid_only',
-                'unreg_valid_gz', 'ignore_dir', 'tags_rich']
+                'unreg_valid_gz', 'ignore_dir', 'tags_rich', 'prunable_pairs']
 IDEM_SKIP_FORCE = True
 
 
